@@ -47,9 +47,12 @@ def _work(arg):
         return ob.func(ob, findings, prop, tier)      # custom engines (crosshair, z3 direct)
     except BaseException as e:   # noqa: BLE001
         import traceback
-        return {'oid': ob.oid, 'harness_errors': [f'{ob.oid}: worker crashed: {type(e).__name__}: {e}'],
+        from . import symx
+        budget = isinstance(e, symx.Budget)     # time/path budget exhausted: inconclusive (reported, never success), not a harness fault
+        return {'oid': ob.oid, 'harness_errors': [] if budget else [f'{ob.oid}: worker crashed: {type(e).__name__}: {e}'],
                 'notes': [traceback.format_exc(limit=10)], 'paths': 0, 'claims': 0, 'unsat': 0, 'sat': 0,
-                'unknown': 0, 'trivial': 0, 'violations': [], 'known': [], 'unconfirmed': [], 'inconclusive': [],
+                'unknown': 1 if budget else 0, 'trivial': 0, 'violations': [], 'known': [], 'unconfirmed': [],
+                'inconclusive': [f'{ob.oid}: {e} (whole obligation undecided)'] if budget else [],
                 'validated': 0, 'replays': 0, 'samples': [], 'solver_s': 0.0, 'wall_s': 0.0, 'decisions': 0,
                 'feas_queries': 0, 'feas_unknown': 0, 'reach': 0, 'bounds': '', 'stubs': [], 'funcs': []}
 
